@@ -13,9 +13,11 @@ PROP = 'C13'
 MANIFEST = dict(
     text='Lean 4 invariants over an interleaving model of server.OnRead/onAccept/Close and eventLoop.Serve/Shutdown (Netpoll.Server: any number of connections, peers closing at any step, '
          'handlers busy/idle, EMFILE back-off goroutines, one-shot quit channel) prove tracking, absence of stale entries, untrack-before-descriptor-reuse, what a nil / context-error return of '
-         'Shutdown means, and that accepting resumes after EMFILE; the model is tied to /repo on every run by the regenerated statement lists of the nine functions and by replaying every window '
-         'of the real onAccept/Close (paused between statements by build-time instrumentation) on the model, while the Lean spec judges the implementation\'s observations - real event loops and an '
-         'EMFILE child process included.',
+         'Shutdown means, and that accepting resumes after EMFILE - the back-off goroutine\'s own loop (delay table, index, guard of the increment) is modelled statement by statement '
+         '(Netpoll.Server.Retry) and proved never to index outside its table for EVERY script of accept results, i.e. for exhaustion stretches of any length; the model is tied to /repo on every run by the regenerated statement lists of the nine functions, the regenerated guard / delay table / index expressions of the back-off loop, and by replaying every window '
+         'of the real onAccept/Close (paused between statements by build-time instrumentation) on the model, while the Lean spec judges the implementation\'s observations - real event loops, an '
+         'EMFILE child process and exhaustion stretches of chosen lengths included (a Listener handed to Serve fails k accepts in a row with EMFILE, k = 1..3 and around the length of the '
+         'delay table read from the code; the queued client and a fresh one must be served afterwards; a child process that dies is a violation; the gaps between the retries are compared with the model\'s delays).',
     note='partial: real-time waits, the kernel accept queue and sync.Map.Range (visits every key present throughout) are assumptions; the per-connection lifecycle is the C05 summary. '
          'Requires fixes/c13-track.patch in /repo (D12 and two Shutdown races; the theorems are about the fixed code, the old behaviour is kept as Lean witnesses + corpus). '
          'Known findings: a second Shutdown returns nil at once; data+FIN inside the accept window is never tracked. Repeated EMFILE episodes busy-loop (accepting still resumes).',
@@ -69,6 +71,9 @@ def run(rep, prop=PROP):
         plans.append(('sweep', srvrun.sweep_plan(st, rep.tier)))
     plans.append(('probe', srvrun.finding_probes(st)))
     hist = {}; finals = set(); lines = 0; scen = 0; injected = 0; samples = []
+    # (stage 4, started here because it is real time: descriptor-exhaustion stretches of chosen lengths, see below)
+    stretch_ex = ThreadPoolExecutor(max_workers=1)
+    stretch_fut = stretch_ex.submit(srvrun.run_stretch, binary, os.path.join(wd, 'stretch'), srvrun.stretch_lengths(rep.tier))
     def one(ix):
         name, plan = plans[ix]
         return name, srvrun.run_sweep(binary, os.path.join(wd, 'sweep%d' % ix), plan, cfg)
@@ -127,7 +132,19 @@ def run(rep, prop=PROP):
             emf_lines.append(line)
             if verdict != 'OK':
                 problems.append(('emfile', None, 'impl-violates-spec', verdict + ' in: ' + line, ['emfile', '# ' + line]))
-    rep.cov['evaluations'] = scen + nreal + len(emf_lines)
+    # 4. exhaustion stretches of ANY length: a Listener handed to Serve fails k accepts in a row, k from 1 to beyond the
+    #    length of the back-off goroutine's delay table; afterwards the queued client and a fresh one must be served
+    stretch_lines = []
+    for k, line, verdict in stretch_fut.result():
+        stretch_lines.append(line)
+        if verdict.startswith('IMPL-SPEC-FAIL'):
+            problems.append(('stretch', None, 'impl-violates-spec', verdict + ' in: ' + line, ['stretch %d' % k, '# ' + line,
+                             '# a Listener whose first %d Accept calls return syscall.EMFILE is handed to Serve; one client connects at the start of the stretch, one after it' % k]))
+        elif verdict != 'OK':
+            problems.append(('stretch', None, 'impl-model-differ', verdict + ' in: ' + line, ['stretch %d' % k, '# ' + line]))
+    stretch_ex.shutdown()
+    rep.cov['evaluations'] = scen + nreal + len(emf_lines) + len(stretch_lines)
+    rep.cov['exhaustion_stretches'] = stretch_lines
     rep.cov['distinct_nontrivial'] = len(finals) + len(real_hist)
     rep.cov['rule'] = ('sweep scenario = one real accept (server.OnRead on a loopback listener, two+ pollers) with one event (peer close / data / data+FIN / a whole server.Close / a second accept) '
                        'injected before one statement of the real server.onAccept, its untrack callback or server.Close; every statement passed is replayed on Netpoll.Server.step and the '
@@ -173,12 +190,13 @@ def replay(rep, path):
     binary, out = srvrun.build()
     common.lake_build(['npdriver'])
     st = srvrun.steps(); cfg = srvrun.detect_cfg(st)
-    plan = []; reals = []; emf = False
+    plan = []; reals = []; emf = False; stretches = []
     for l in open(path):
         f = l.split()
         if len(f) == 4 and f[0] == 'sweep': plan.append((f[1], f[2], int(f[3])))
         if len(f) >= 2 and f[0] == 'real': reals.append((int(f[1]), int(f[2]) if len(f) > 2 else 5))
         if f[:1] == ['emfile']: emf = True
+        if len(f) == 2 and f[0] == 'stretch': stretches.append(int(f[1]))
     wd = os.path.join(common.WORK, 'replay13'); shutil.rmtree(wd, ignore_errors=True)
     found = []
     if plan:
@@ -194,6 +212,10 @@ def replay(rep, path):
         for _, line, verdict in srvrun.run_emfile(binary, wd, 0):
             rep.cov['evaluations'] += 1
             if verdict != 'OK': found.append(('impl-violates-spec', verdict + ' in: ' + line))
+    if stretches:
+        for k, line, verdict in srvrun.run_stretch(binary, os.path.join(wd, 'stretch'), stretches):
+            rep.cov['evaluations'] += 1
+            if verdict != 'OK': found.append(('impl-violates-spec' if verdict.startswith('IMPL-SPEC-FAIL') else 'impl-model-differ', verdict + ' in: ' + line))
     for k, d in found:
         print('REPLAY: %s: %s' % (k, d))
     if found:
